@@ -62,6 +62,9 @@ EXTRA_TAGS = {
     "biobalm.symbolic_utils.function_eval": ("C17",),
     "biobalm.space_utils.percolate_space": ("C17",),
     "biobalm.space_utils.space_unique_key": ("C19",),
+    "biobalm.succession_diagram.SuccessionDiagram.is_subgraph": ("C17",),
+    "biobalm.succession_diagram.SuccessionDiagram.is_isomorphic": ("C17",),
+    "biobalm.succession_diagram.SuccessionDiagram.find_node": ("C17",),
     "biobalm.succession_diagram.SuccessionDiagram._update_node_depth": ("C13",),
     "biobalm.trappist_core._create_clingo_constraints": ("C17", "C19"),
     "biobalm.trappist_core._create_clingo_fixed_point_constraints": ("C17", "C19"),
